@@ -271,7 +271,7 @@ func (e treeEngine) observeRefs(ctx *RunCtx, c *simrt.Chooser, d *Driver, w *JWo
 		for li, gl := range lines {
 			for _, o := range gl.Occs {
 				if o.Kind == occ.Kind && o.Name == occ.Name && (inclDecl || !o.Decl || occ.Kind == "payee") {
-					want = append(want, loc{t.URI, li, o.Start, o.End})
+					want = append(want, loc{normURI(t.URI), li, o.Start, o.End})
 				}
 			}
 		}
@@ -299,7 +299,7 @@ func (e treeEngine) observeRefs(ctx *RunCtx, c *simrt.Chooser, d *Driver, w *JWo
 					fail("rename", "wrong-new-text", fmt.Sprintf("rename edit carries %q", ed.NewText), nil)
 					return false
 				}
-				got = append(got, loc{u, ed.Range.Start.Line, ed.Range.Start.Character, ed.Range.End.Character})
+				got = append(got, loc{normURI(u), ed.Range.Start.Line, ed.Range.Start.Character, ed.Range.End.Character})
 			}
 		}
 	} else {
@@ -314,7 +314,7 @@ func (e treeEngine) observeRefs(ctx *RunCtx, c *simrt.Chooser, d *Driver, w *JWo
 		}
 		json.Unmarshal(r.Result, &ls)
 		for _, x := range ls {
-			got = append(got, loc{x.URI, x.Range.Start.Line, x.Range.Start.Character, x.Range.End.Character})
+			got = append(got, loc{normURI(x.URI), x.Range.Start.Line, x.Range.Start.Character, x.Range.End.Character})
 		}
 	}
 	sortLocs(got)
